@@ -19,10 +19,9 @@ import (
 	"fmt"
 	"math"
 	"math/big"
-	"os"
 	"strconv"
-	"time"
 
+	"github.com/cockroachdb/apd/v2"
 	"github.com/kstenerud/go-concise-encoding/ce/events"
 )
 
@@ -236,31 +235,56 @@ func c22CheckReencode(c *Ctx, doc []byte, class string) {
 	c.Dist(fmt.Sprintf("oracle/reencode/%s/same=%v", class, ok && bytes.Equal(again, doc)))
 	if !ok || !bytes.Equal(again, doc) {
 		c.Fail(Replay{Kind: "reencode", Key: "C22/reencode/" + class,
-			Input:  map[string]string{"doc_hex": hex.EncodeToString(doc)},
+			Input:  map[string]string{"case": class, "doc_hex": hex.EncodeToString(doc)},
 			Expect: hex.EncodeToString(doc), Got: hex.EncodeToString(again), Note: note})
 	}
+}
+
+// c22InFragment: does a generated rules-valid stream lie in the fragment covered by the idempotence theorem
+// (CbeProofs.wf_body)? Excluded: times, custom text, big floats that are not exactly a float64,
+// big decimals with the exponent MinInt32.
+func c22InFragment(es []Ev) bool {
+	for _, e := range es {
+		switch e.K {
+		case "tm", "ct":
+			return false
+		case "bf":
+			if e.BF != nil && !e.BF.IsInf() {
+				if _, acc := e.BF.Float64(); acc != big.Exact {
+					return false
+				}
+			}
+		case "bdf":
+			if e.BDF != nil && e.BDF.Form == apd.Finite && e.BDF.Coeff.Sign() != 0 && e.BDF.Exponent == math.MinInt32 {
+				return false
+			}
+		}
+	}
+	return true
 }
 
 // directed re-encode inputs: single values the generator does not produce
 func c22DirectedReencode() map[string][]Ev {
 	return map[string][]Ev{
-		"bigdecimal-zero":      {{K: "bd"}, {K: "v", N: 0}, {K: "bdf", BDF: apdOf(false, big.NewInt(0), 0)}, {K: "ed"}},
-		"bigdecimal-neg-zero":  {{K: "bd"}, {K: "v", N: 0}, {K: "bdf", BDF: apdOf(true, big.NewInt(0), 0)}, {K: "ed"}},
-		"bigdecimal-small":     {{K: "bd"}, {K: "v", N: 0}, {K: "bdf", BDF: apdOf(true, big.NewInt(15), -1)}, {K: "ed"}},
-		"bigdecimal-exp-min":   {{K: "bd"}, {K: "v", N: 0}, {K: "bdf", BDF: apdOf(false, big.NewInt(7), math.MinInt32)}, {K: "ed"}},
-		"decimal-zero-exp":     {{K: "bd"}, {K: "v", N: 0}, {K: "df", DF: dfloatRaw(5, 0)}, {K: "ed"}},
-		"decimal-neg-zero":     {{K: "bd"}, {K: "v", N: 0}, {K: "df", DF: dfloatRaw(math.MinInt32, 0)}, {K: "ed"}},
-		"bigint-small":         {{K: "bd"}, {K: "v", N: 0}, {K: "bi", Big: big.NewInt(-5)}, {K: "ed"}},
-		"bigint-nil":           {{K: "bd"}, {K: "v", N: 0}, {K: "bi"}, {K: "ed"}},
-		"float-nan-payload":    {{K: "bd"}, {K: "v", N: 0}, {K: "fl", F: math.Float64frombits(0xfff8000000000123)}, {K: "ed"}},
-		"float-neg-zero":       {{K: "bd"}, {K: "v", N: 0}, {K: "fl", F: math.Copysign(0, -1)}, {K: "ed"}},
-		"chunked-empty-final":  {{K: "bd"}, {K: "v", N: 0}, {K: "ab", A: events.ArrayTypeString}, {K: "ac", N: 2, B: true}, {K: "ad", Data: []byte("hi")}, {K: "ac", N: 0, B: false}, {K: "ed"}},
-		"chunked-short":        {{K: "bd"}, {K: "v", N: 0}, {K: "ab", A: events.ArrayTypeUint16}, {K: "ac", N: 2, B: false}, {K: "ad", Data: []byte{1, 0}}, {K: "ad", Data: []byte{2, 0}}, {K: "ed"}},
-		"media-empty":          {{K: "bd"}, {K: "v", N: 0}, {K: "media", S: "a/b", Data: []byte{}}, {K: "ed"}},
-		"custom-binary":        {{K: "bd"}, {K: "v", N: 0}, {K: "cb", N: 300, Data: []byte{1, 2, 3}}, {K: "ed"}},
-		"custom-text-chunked":  {{K: "bd"}, {K: "v", N: 0}, {K: "cbeg", A: events.ArrayTypeCustomText, N: 3}, {K: "ac", N: 2, B: false}, {K: "ad", Data: []byte("ab")}, {K: "ed"}},
-		"string-15":            {{K: "bd"}, {K: "v", N: 0}, {K: "sa", A: events.ArrayTypeString, Data: []byte("0123456789abcde")}, {K: "ed"}},
-		"string-16":            {{K: "bd"}, {K: "v", N: 0}, {K: "sa", A: events.ArrayTypeString, Data: []byte("0123456789abcdef")}, {K: "ed"}},
+		// big decimal zeros: pinned regression witnesses (fixed by writing the canonical zero form)
+		"bigdecimal-zero":     {{K: "bd"}, {K: "v", N: 0}, {K: "bdf", BDF: apdOf(false, big.NewInt(0), 0)}, {K: "ed"}},
+		"bigdecimal-neg-zero": {{K: "bd"}, {K: "v", N: 0}, {K: "bdf", BDF: apdOf(true, big.NewInt(0), 0)}, {K: "ed"}},
+		"bigdecimal-zero-exp": {{K: "bd"}, {K: "v", N: 0}, {K: "bdf", BDF: apdOf(true, big.NewInt(0), -7)}, {K: "ed"}},
+		"bigdecimal-small":    {{K: "bd"}, {K: "v", N: 0}, {K: "bdf", BDF: apdOf(true, big.NewInt(15), -1)}, {K: "ed"}},
+		"bigdecimal-exp-min":  {{K: "bd"}, {K: "v", N: 0}, {K: "bdf", BDF: apdOf(false, big.NewInt(7), math.MinInt32)}, {K: "ed"}},
+		"decimal-zero-exp":    {{K: "bd"}, {K: "v", N: 0}, {K: "df", DF: dfloatRaw(5, 0)}, {K: "ed"}},
+		"decimal-neg-zero":    {{K: "bd"}, {K: "v", N: 0}, {K: "df", DF: dfloatRaw(math.MinInt32, 0)}, {K: "ed"}},
+		"bigint-small":        {{K: "bd"}, {K: "v", N: 0}, {K: "bi", Big: big.NewInt(-5)}, {K: "ed"}},
+		"bigint-nil":          {{K: "bd"}, {K: "v", N: 0}, {K: "bi"}, {K: "ed"}},
+		"float-nan-payload":   {{K: "bd"}, {K: "v", N: 0}, {K: "fl", F: math.Float64frombits(0xfff8000000000123)}, {K: "ed"}},
+		"float-neg-zero":      {{K: "bd"}, {K: "v", N: 0}, {K: "fl", F: math.Copysign(0, -1)}, {K: "ed"}},
+		"chunked-empty-final": {{K: "bd"}, {K: "v", N: 0}, {K: "ab", A: events.ArrayTypeString}, {K: "ac", N: 2, B: true}, {K: "ad", Data: []byte("hi")}, {K: "ac", N: 0, B: false}, {K: "ed"}},
+		"chunked-short":       {{K: "bd"}, {K: "v", N: 0}, {K: "ab", A: events.ArrayTypeUint16}, {K: "ac", N: 2, B: false}, {K: "ad", Data: []byte{1, 0}}, {K: "ad", Data: []byte{2, 0}}, {K: "ed"}},
+		"media-empty":         {{K: "bd"}, {K: "v", N: 0}, {K: "media", S: "a/b", Data: []byte{}}, {K: "ed"}},
+		"custom-binary":       {{K: "bd"}, {K: "v", N: 0}, {K: "cb", N: 300, Data: []byte{1, 2, 3}}, {K: "ed"}},
+		"custom-text-chunked": {{K: "bd"}, {K: "v", N: 0}, {K: "cbeg", A: events.ArrayTypeCustomText, N: 3}, {K: "ac", N: 2, B: false}, {K: "ad", Data: []byte("ab")}, {K: "ed"}},
+		"string-15":           {{K: "bd"}, {K: "v", N: 0}, {K: "sa", A: events.ArrayTypeString, Data: []byte("0123456789abcde")}, {K: "ed"}},
+		"string-16":           {{K: "bd"}, {K: "v", N: 0}, {K: "sa", A: events.ArrayTypeString, Data: []byte("0123456789abcdef")}, {K: "ed"}},
 	}
 }
 
@@ -268,19 +292,25 @@ func runC22(c *Ctx) {
 	c.Rep.Rule = "integers: every event form of every magnitude within 2 of each width boundary (0, 100, 2^7, 2^8, 2^15, 2^16, 2^24, 2^31, 2^32, 2^40, 2^47, 2^48, 2^55, 2^56, 2^63, 2^64, 2^72) and random magnitudes, both signs; floats: exponent/mantissa-edge patterns of the three widths, generator classes and random patterns; arrays: every array type x element counts 0..17, 31..33, 63..65, 127, 128, 300 through OnArray / OnStringlikeArray / chunked API; re-encode: generated rules-valid streams (with times and inexact big floats) plus directed values; model correspondence on the shared CBE families. Non-trivial: magnitude > 63, finite non-zero float, count in 14..17, document longer than 4 bytes; distinct by input text"
 
 	// ---- correspondence: model vs implementation
-	tm := func(what string) {}
-	if os.Getenv("CBE_TIMING") != "" {
-		t0 := time.Now()
-		tm = func(what string) { fmt.Fprintf(os.Stderr, "%s: %v\n", what, time.Since(t0)); t0 = time.Now() }
-	}
 	k := newCbeCorr(c)
 	docs := cbeEncFamilies(c, k, c.Pick(120, 2500), c.Pick(60, 1200))
-	tm("enc families")
-	cbeDecFamilies(c, k, docs, c.Pick(250, 5000), c.Pick(3, 12), c.Pick(200, 5000))
+	cbeDecFamilies(c, k, docs, c.Pick(200, 5000), c.Pick(3, 12), c.Pick(150, 5000))
+	// which generated streams lie in the fragment the idempotence theorem covers (doc_okb)
+	fc := c.Cases("c22_frag", "CE.Model.Cbe CE.Proofs.CbeProofs", "frag_case", "frag_case_ok")
+	fc.perFile = 150
+	fopt := CbeGenOpts()
+	fg := NewEvGen(c.Rng, fopt)
+	for i := 0; i < c.Pick(100, 1500); i++ {
+		fg.Opt.CustomText = i%5 == 4
+		fg.Opt.Times = i%7 == 6
+		es := fg.Document()
+		want := c22InFragment(es)
+		fc.Add(rleTerm(cPair(cEvs(es), cBool(want))), fmt.Sprintf("in-fragment=%v :: %s", want, evsString(es)))
+		c.Dist(fmt.Sprintf("corr/fragment/%v", want))
+	}
 	c.Rep.Extra["decoder_results_with_times_skipped"] = k.SkippedTime
 	c.Rep.Extra["decoder_process_died_on"] = k.Crashes
 
-	tm("dec families")
 	// ---- oracle 1: integers
 	mags := []*big.Int{}
 	for _, m := range cbeBoundaryMagnitudes() {
@@ -305,7 +335,6 @@ func runC22(c *Ctx) {
 		}
 	}
 
-	tm("oracle ints")
 	// ---- oracle 2: floats
 	g := NewEvGen(c.Rng, DefaultGenOpts())
 	fb := cbeFloatEdgeBits()
@@ -316,7 +345,6 @@ func runC22(c *Ctx) {
 		c22CheckFloat(c, b)
 	}
 
-	tm("oracle floats")
 	// ---- oracle 3: arrays and strings
 	lens := []uint64{0, 1, 2, 3, 4, 5, 6, 7, 8, 9, 10, 11, 12, 13, 14, 15, 16, 17, 31, 32, 33, 63, 64, 65, 127, 128, 300}
 	for _, t := range c22ArrayTypes {
@@ -329,7 +357,6 @@ func runC22(c *Ctx) {
 		}
 	}
 
-	tm("oracle arrays")
 	// ---- oracle 4: decode -> re-encode is the identity on encoder output
 	for _, d := range docs {
 		c22CheckReencode(c, d, "generated")
@@ -357,7 +384,6 @@ func runC22(c *Ctx) {
 		}
 		c22CheckReencode(c, out, name)
 	}
-	tm("oracle reencode")
 	for kind, n := range gf.Kinds {
 		c.Rep.Distribution["kind:"+kind] += n
 	}
@@ -414,6 +440,14 @@ func replayC22(r *Replay) (bool, string) {
 		doc, err := hex.DecodeString(r.Input["doc_hex"])
 		if err != nil {
 			return false, "bad document"
+		}
+		// a directed case is regenerated from its events, so that the replay follows the encoder of the current tree
+		if es, found := c22DirectedReencode()[r.Input["case"]]; found {
+			out, okenc := cbeEncode(es)
+			if !okenc {
+				return false, "the encoder rejects the events of case " + r.Input["case"]
+			}
+			doc = out
 		}
 		again, okk, note := c22Reencode(doc)
 		return okk && bytes.Equal(again, doc), fmt.Sprintf("document %s re-encodes to %s %s", hex.EncodeToString(doc), hex.EncodeToString(again), note)
